@@ -28,7 +28,7 @@ def suite(repo):
 
 def demo(script, repo):
     r = subprocess.run(["/venv/bin/python", str(script)], capture_output=True, text=True, cwd=script.parent,
-                       env=dict(os.environ, PYTHONPATH=str(repo), XDG_CACHE_HOME=tempfile.mkdtemp(prefix="vfdemo-")), timeout=600)
+                       env=dict(os.environ, PYTHONPATH=str(repo), XDG_CACHE_HOME=tempfile.mkdtemp(prefix="vfdemo-", dir=script.parent)), timeout=600)
     return r.returncode, (r.stdout + r.stderr)[-300:]
 
 
